@@ -122,4 +122,40 @@ def fromBytes (bs : List Nat) : Option Image :=
     if fmt = 1 ∧ rd32 h.blocks * 512 ≠ len then none else
     some { header := h, data := data, comment := comment, creator := creator }
 
+/-- `to_bytes` of the repaired code also resets the header-length field to the 64 bytes it writes (`fixLen`); the code
+as it was kept whatever a loaded file said there (proposed_fixes/c09-2mg-header-len.diff).  Which variant the tree being
+checked has is probed on the real code by the harness. -/
+def Image.finalizeF (fixLen : Bool) (x : Image) : Header :=
+  let f := x.finalize
+  if fixLen then { f with headerLen := [64, 0] } else f
+
+def toBytesF (fixLen : Bool) (x : Image) : List Nat :=
+  (x.finalizeF fixLen).toBytes ++ x.data ++ x.comment ++ x.creator
+
+/-- `Dot2mg::from_bytes` of ANY byte string (a file written by another program), with the outcome of the two
+`String::from_utf8` calls as parameters: `vc` / `vr` say whether the bytes of the comment / creator extent are valid
+UTF-8.  An extent that runs past the end of the file, or is not UTF-8, is dropped (empty string) — the header fields that
+described it stay in the header object until `to_bytes` recomputes them. -/
+def fromBytesV (vc vr : Bool) (bs : List Nat) : Option Image :=
+  if bs.length < 64 then none else
+  match Header.fromBytes (bs.take 64) with
+  | none => none
+  | some h =>
+    if h.magic ≠ [0x32, 0x49, 0x4D, 0x47] then none else
+    let fmt := rd32 h.imgFmt
+    if fmt > 2 then none else
+    let off := rd32 h.dataOffset
+    let len := rd32 h.dataLen
+    if bs.length < off + len then none else
+    let data := (bs.drop off).take len
+    if ¬ rawOk fmt len then none else
+    let coff := rd32 h.commentOffset
+    let clen := rd32 h.commentLen
+    let comment := if bs.length < coff + clen then [] else if vc then (bs.drop coff).take clen else []
+    let roff := rd32 h.creatorOffset
+    let rlen := rd32 h.creatorLen
+    let creator := if bs.length < roff + rlen then [] else if vr then (bs.drop roff).take rlen else []
+    if fmt = 1 ∧ rd32 h.blocks * 512 ≠ len then none else
+    some { header := h, data := data, comment := comment, creator := creator }
+
 end A2Verif.Model.C09Dot2mg
